@@ -7,6 +7,8 @@ Correspondence (model = lean/TPV/Model/DeepONet.lean through lean/drivers/C09.le
   lin   : ONE TrunkLinear layer in exact rational arithmetic (small dyadic data: torch is exact too):
           output, grad_input, grad_weight, grad_bias
   mesh  : FunctionSet meshgrid / function batch / collections, exact
+  hist  : histories of conditions / direct supplies on one or two models with several function sets
+  reuse : the SAME branch-input object again after its content or the weights changed, no_grad / inference_mode / grad
   uniq  : plain trunk with one location set per function
   conv  : ConvBranchNet1D, property oracles only (its layers are not modelled)
   nondiv: output_neurons not divisible by the output dimension must be rejected (or handled consistently)
@@ -279,6 +281,27 @@ def gen_hist(ctx, idx):
     return case
 
 
+def gen_reuse(ctx, idx):
+    """the SAME branch-input object handed to the model again after its content or the model's weights changed,
+    under every autograd context; every call must equal a fresh model with the current weights on the current content"""
+    rng = ctx.rng
+    case = gen_net(ctx, 0)
+    case.update(kind="reuse", seq=False, primary="tensor3", rank=rng.choice(["r2", "r3x1"]))
+    B = case["B"]
+    case["contents"] = [[[dy(rng, -16, 16), dy(rng, -16, 16), dy(rng, -16, 16)] for _ in range(B)] for _ in range(4)]
+    sizes_t = [case["din"]] + case["trunk_hidden"] + [case["neurons"]]
+    sizes_b = [len(case["pts"]) * case["fdim"]] + case["branch_hidden"] + [case["neurons"]]
+    case["weights"] = [dict(trunk=case["trunk"], branch=case["branch"])] + \
+        [dict(trunk=gen_layers(rng, sizes_t), branch=gen_layers(rng, sizes_b)) for _ in range(3)]
+    case["obj"] = rng.choice(["tensor3", "points3", "callable", "functionset"] + (["tensor2", "points2"] if B == 1 else []))
+    case["ctx"] = rng.choice(["no_grad", "no_grad", "inference_mode", "grad"])
+    # between the calls: change the content of the object in place, load other weights, both, or nothing
+    case["changes"] = [rng.choice(["content", "content", "weights", "both", "none"]) for _ in range(rng.randint(1, 3))]
+    if idx % 2 == 0:
+        case["changes"][0] = rng.choice(["content", "weights"])
+    return case
+
+
 def gen_lin(ctx, idx):
     rng = ctx.rng
     nin, nout = rng.randint(1, 4), rng.randint(1, 4)
@@ -337,6 +360,8 @@ def gen_cases(ctx):
         cases.append(gen_uniq(ctx, i))
     for i in range(ctx.scale(60, 600)):
         cases.append(gen_hist(ctx, i))
+    for i in range(ctx.scale(60, 600)):
+        cases.append(gen_reuse(ctx, i))
     for i in range(ctx.scale(30, 300)):
         cases.append(gen_conv(ctx, i))
     for i in range(ctx.scale(400, 4000)):
@@ -1028,6 +1053,120 @@ def run_hist(case):
     return res
 
 
+def run_reuse(case):
+    e = env(); tp = e["tp"]; torch = e["torch"]; np = e["np"]
+    import contextlib
+    T, U, Fo, Ti, Kp = spaces_of(case)
+    res = dict(problems=[], observed=[])
+    d, K, N = case["d"], case["neurons"] // case["d"], case["N"]
+    net, fs = build_net(case, True)
+    F = formula(case["fdim"])
+    kind = case["obj"]
+
+    class Seq(tp.samplers.PointSampler):
+        def __init__(self, owner):
+            super().__init__(n_points=len(case["contents"][0]))
+            self.owner = owner
+
+        def sample_points(self, params=tp.spaces.Points.empty(), device="cpu"):
+            return tp.spaces.Points(t64(case["contents"][self.owner["cv"]]), Kp)
+
+    class Fn:
+        """a callable object whose parameters are public attributes"""
+
+        def __init__(self, k):
+            self.k = list(k)
+
+        def __call__(self, t):
+            return F(t, self.k[0], self.k[1], self.k[2])
+
+    state = dict(cv=0, wv=0)
+
+    def values(cv):
+        v = fn_values(case, case["contents"][cv])
+        return v[0] if kind in ("tensor2", "points2") else v
+
+    if kind in ("tensor3", "tensor2"):
+        obj = t64(values(0))
+    elif kind in ("points3", "points2"):
+        obj = tp.spaces.Points(t64(values(0)), Fo)
+    elif kind == "callable":
+        obj = Fn(case["contents"][0][0])
+    else:
+        obj = tp.domains.CustomFunctionSet(fs, Seq(state), fn_torch(case["fdim"]))
+
+    def set_content(cv):
+        state["cv"] = cv
+        with torch.no_grad():
+            if kind in ("tensor3", "tensor2"):
+                obj.copy_(t64(values(cv)))
+            elif kind in ("points3", "points2"):
+                obj.as_tensor.copy_(t64(values(cv)))
+            elif kind == "callable":
+                obj.k = list(case["contents"][cv][0])
+            # function set: the parameter sampler delivers the current content at the next sampling
+
+    def set_weights(wv):
+        state["wv"] = wv
+        load_weights(net.trunk, case["weights"][wv]["trunk"])
+        load_weights(net.branch, case["weights"][wv]["branch"])
+
+    def ref(wv, cv):
+        mw = case["weights"][wv]
+        params = case["contents"][cv] if kind != "callable" else case["contents"][cv][:1]
+        tref = ref_mlp(np, mw["trunk"], case["x"], case["tacts"]).reshape(N, d, K)
+        bref = ref_mlp(np, mw["branch"], [sum(r, []) for r in fn_values(case, params)], case["bacts"]).reshape(len(params), d, K)
+        return np.einsum("ick,jck->ijc", bref, tref)
+
+    def fingerprint():
+        if kind in ("tensor3", "tensor2"):
+            return obj.tolist()
+        if kind in ("points3", "points2"):
+            return obj.as_tensor.tolist()
+        if kind == "callable":
+            return list(obj.k)
+        return None
+
+    ctxs = dict(no_grad=torch.no_grad, inference_mode=torch.inference_mode, grad=contextlib.nullcontext)
+    x = trunk_tensor(case)
+    kept = []
+    steps = ["first"] + case["changes"]
+    for n, ch in enumerate(steps):
+        if ch in ("content", "both"):
+            set_content(state["cv"] + 1)
+        if ch in ("weights", "both"):
+            set_weights(state["wv"] + 1)
+        before = fingerprint()
+        try:
+            with ctxs[case["ctx"]]():
+                out = net(tp.spaces.Points(x, T), obj).as_tensor
+        except Exception as ex:
+            res["problems"].append(f"call {n} with the same {kind} object under {case['ctx']} raised {type(ex).__name__}: {str(ex)[:140]}")
+            break
+        if fingerprint() != before:
+            res["problems"].append(f"call {n}: DeepONet.forward changed the user's {kind} object (values before/after differ)")
+        o = out.detach().tolist()
+        kept.append((out, o))
+        want = ref(state["wv"], state["cv"])
+        tags = [f"w{wv}c{cv}" for wv in range(state["wv"] + 1) for cv in range(state["cv"] + 1)
+                if ref(wv, cv).shape == np.array(o).shape and maxdiff(o, ref(wv, cv).tolist()) <= TOL]
+        res["observed"].append(tags or ["unknown"])
+        if maxdiff(o, want.tolist()) > TOL:
+            res["problems"].append(
+                f"the same {kind} object handed to DeepONet.forward again under {case['ctx']} (calls so far: {steps[:n + 1]}): call {n} must equal a "
+                f"fresh model with the current weights (version {state['wv']}) on the current content (version {state['cv']}) of the object, "
+                f"but the output is the one of {tags or 'no known'} (w = weights version, c = content version); max relative difference "
+                f"{maxdiff(o, want.tolist()):.3g}")
+            break
+    # results must not alias buffers that later calls overwrite
+    for n, (t, o) in enumerate(kept):
+        if t.detach().tolist() != o:
+            res["problems"].append(f"the output tensor returned by call {n} changed its values during later calls (aliases an internal buffer)")
+            break
+    res["final"] = [state["wv"], state["cv"]]
+    return res
+
+
 def net_lines(case, res):
     """driver requests of one net case: fwd fast, fwd plain, out (exact contraction), vjp"""
     x = trunk_tensor(case, xs=model_x(case, case["x"])).tolist()
@@ -1379,6 +1518,13 @@ def evaluate(case):
     if k == "net":
         res = run_net(case)
         return res, net_lines(case, res)
+    if k == "reuse":
+        # every call hands the (same) object over again: `fix 0 <tag>`, the tag numbers (weights, content) versions
+        tags, wv, cv = [], 0, 0
+        for ch in ["first"] + case["changes"]:
+            cv += ch in ("content", "both"); wv += ch in ("weights", "both")
+            tags.append(wv * 10 + cv)
+        return run_reuse(case), [f"hist {len(tags)} " + " ".join(f"fix 0 {t}" for t in tags)]
     if k == "hist":
         toks = []
         for op in case["ops"]:
@@ -1424,6 +1570,22 @@ def judge(rep, case, res, replies):
         return
     if k == "net":
         judge_net(rep, case, res, replies)
+    elif k == "reuse":
+        rep.count(f"reuse:{case['obj']}:{case['ctx']}")
+        for ch in case["changes"]:
+            rep.count("reuse:change=" + ch)
+        for p in res["problems"]:
+            rep.fail(p, case)
+        pred = replies[0].split()
+        for n, tags in enumerate(res["observed"]):
+            if n >= len(pred) or not pred[n].startswith("fixed:"):
+                rep.disagree("reuse: TPV.DeepONet.Hist.step gives no source for call " + str(n), case, tags, pred)
+                break
+            t = int(pred[n].split(":")[1])
+            if f"w{t // 10}c{t % 10}" not in tags:
+                rep.disagree(f"reuse: call {n} of the implementation belongs to {tags}, TPV.DeepONet.Hist.step (fix always re-evaluates) "
+                             f"predicts w{t // 10}c{t % 10}", case, tags, pred[n])
+                break
     elif k == "hist":
         rep.count(f"hist:models={len(case['models'])}:sets={len(case['sets'])}")
         rep.count("hist:operations", len(case["ops"]))
@@ -1461,6 +1623,8 @@ def judge(rep, case, res, replies):
 
 def key_of(case):
     k = case["kind"]
+    if k == "reuse":
+        return ["reuse", case["obj"], case["ctx"], case["changes"], case["B"], case["rank"]]
     if k == "hist":
         return ["hist", len(case["models"]), [len(b[0]) for b in case["sets"]], case["ops"]]
     if k in ("net", "uniq", "conv"):
@@ -1476,6 +1640,8 @@ def key_of(case):
 
 def nontrivial(case):
     k = case["kind"]
+    if k == "reuse":
+        return any(c != "none" for c in case["changes"])
     if k == "hist":
         return len(case["ops"]) >= 3
     if k in ("net", "uniq", "conv"):
@@ -1494,6 +1660,8 @@ def sample_of(case, res, replies):
     if k == "net":
         return dict(kind="net", arch=key_of(case), implementation_output=res.get("fast") if not isinstance(res.get("fast"), list) else res["fast"][0][:2],
                     fast_vs_plain_maxreldiff=res.get("o4"), variants_maxdiff=res.get("variants"), model_reply_head=replies[0][:60])
+    if k == "reuse":
+        return dict(kind="reuse", object=case["obj"], context=case["ctx"], changes=case["changes"], observed=res.get("observed"))
     if k == "hist":
         return dict(kind="hist", models=len(case["models"]), set_sizes=[len(b[0]) for b in case["sets"]], ops=case["ops"],
                     observed_source_per_op=res.get("observed"))
